@@ -12,7 +12,7 @@ def short(s, n):
     return s if len(s) <= n else s[: n - 1].rstrip() + "…"
 
 def numbers():
-    kf = [json.loads(l) for l in open(os.path.join(V, "KNOWN_FINDINGS.jsonl")) if l.strip()]
+    kf = [json.loads(l) for l in open(os.path.join(V, "KNOWN_FINDINGS.jsonl")) if l.strip() and not l.startswith("#")]
     rows = ["| id | theorems in Props (closed under the global context) | hypotheses still carried | [T] cases agreeing | [S] evaluations | known findings (kinds) | fixed |",
             "|---|---|---|---|---|---|---|"]
     for i in range(1, 21):
